@@ -8,7 +8,8 @@ import sys
 
 from py_gql.exc import SchemaValidationError
 from py_gql.lang import parse
-from py_gql.schema import ListType, NonNullType, ScalarType
+from py_gql.schema import EnumType, InputField, InputObjectType, ListType, NonNullType, ScalarType
+from py_gql.schema.scalars import SPECIFIED_SCALAR_TYPES
 from py_gql.schema.differ import (
     _is_safe_input_type_change,
     _is_safe_output_type_change,
@@ -35,9 +36,11 @@ LEVEL_NOTE = ("Theorems are about the Gallina model Schema/DifferModel.v of sche
               "pairs on every run. Root operation types are not an elementary edit of the statement "
               "and are not compared by the differ; message texts are not modelled.")
 RULE = ("pairs (valid generated schema over all six kinds, code- or SDL-built; the same schema after "
-        "1 or 2-4 elementary edits of the 30 kinds, retypes drawn from all wrappings of depth <= 3; "
-        "identical and type-order-permuted pairs) + all pairs of wrappings of depth <= 3 over two "
-        "names for the two safe-change predicates; non-trivial = pair built by both routes and the "
+        "1 or 2-4 elementary edits of the 30 kinds, retypes drawn from all wrappings of depth <= 3 over every "
+        "built-in scalar and the schema's own types; "
+        "identical and type-order-permuted pairs) + all ordered pairs of wrappings (depth <= 2 quick, 3 thorough) "
+        "over nine concrete names (built-in scalars, enum, custom scalar, two input objects) for the two "
+        "safe-change predicates; non-trivial = pair built by both routes and the "
         "diff ran; distinct = distinct (old, new) spec pairs")
 
 PATHS = {
@@ -87,7 +90,14 @@ def _py_type(t):
     return NonNullType(_py_type(t[1]))
 
 
-_NAMED = {n: ScalarType(n, serialize=lambda x: x, parse=lambda x: x) for n in ("A", "B")}
+_NAMED = {n: ScalarType(n, serialize=lambda x: x, parse=lambda x: x) for n in ("A", "B", "Sc")}
+_NAMED.update({t.name: t for t in SPECIFIED_SCALAR_TYPES})
+_NAMED["E"] = EnumType("E", ["V"])
+_NAMED["InA"] = InputObjectType("InA", [InputField("a", _NAMED["Int"])])
+_NAMED["InB"] = InputObjectType("InB", [InputField("a", _NAMED["Int"])])
+# concrete names for the exhaustive predicate sweep: the model compares names for
+# equality only, so special treatment of any pair of built-ins is a disagreement
+PRED_NAMES = ["Int", "Float", "String", "ID", "Boolean", "E", "Sc", "InA", "InB"]
 
 
 def _wrappings(base, depth):
@@ -247,11 +257,54 @@ def generate(rng, tier):
                            [{"edit": "retype_field", "path": ["Query", "f"], "old": o, "new": n}]))
         cases.append(_pair(_mini([("f", "Int", [("x", G.tstr(o), None)])]), _mini([("f", "Int", [("x", G.tstr(n), None)])]),
                            [{"edit": "retype_arg", "path": ["Query", "f", "x"], "old": o, "new": n}]))
-    # the two predicates, exhaustively on all type pairs of depth <= 3 over two names
-    allw = _wrappings("A", 3) + _wrappings("B", 3)
+    # retypes across every ordered pair of built-in scalars, in argument / input field /
+    # directive argument / field position, bare and under wrappers (also with a dropped non-null)
+    shapes = [("%s", "%s"), ("%s!", "%s"), ("[%s]", "[%s]"), ("[%s!]!", "[%s]")]
+    bpairs = [(a, b) for a in G.BUILTIN_NAMES for b in G.BUILTIN_NAMES if a != b]
+    for a, b in bpairs:
+        for so, sn in (shapes if tier == "thorough" else [shapes[0], rng.choice(shapes[1:])]):
+            o, n = _t(so % a), _t(sn % b)
+            cases.append(_pair(_mini([("f", "Int", [("x", G.tstr(o), None)])]), _mini([("f", "Int", [("x", G.tstr(n), None)])]),
+                               [{"edit": "retype_arg", "path": ["Query", "f", "x"], "old": o, "new": n}]))
+            inp = lambda t: [{"kind": "input", "name": "I", "fields": [  # noqa: E731
+                {"name": "a", "type": t, "default": None}, {"name": "b", "type": _t("Int"), "default": None}]}]
+            cases.append(_pair(_mini([("f", "Int", [("x", "I", None)])], inp(o)), _mini([("f", "Int", [("x", "I", None)])], inp(n)),
+                               [{"edit": "retype_input_field", "path": ["I", "a"], "old": o, "new": n}]))
+            if tier == "thorough" or rng.random() < 0.3:
+                od, nd = _mini([("f", "Int", [])]), _mini([("f", "Int", [])])
+                od["directives"] = [{"name": "d", "locations": ["FIELD"], "args": [{"name": "x", "type": o, "default": None}]}]
+                nd["directives"] = [{"name": "d", "locations": ["FIELD"], "args": [{"name": "x", "type": n, "default": None}]}]
+                cases.append(_pair(od, nd, [{"edit": "retype_dir_arg", "path": ["d", "x"], "old": o, "new": n}]))
+                cases.append(_pair(_mini([("f", G.tstr(o), [])]), _mini([("f", G.tstr(n), [])]),
+                                   [{"edit": "retype_field", "path": ["Query", "f"], "old": o, "new": n}]))
+    # safe retypes of input positions (same name, non-null dropped): nothing BREAKING is reported, so the
+    # variable-through-old-type operations are re-validated on them
+    for a in (G.BUILTIN_NAMES if tier == "thorough" else ["Int", "Float"]):
+        for so, sn in [("%s!", "%s"), ("[%s!]!", "[%s]"), ("[[%s!]]", "[[%s]]")]:
+            o, n = _t(so % a), _t(sn % a)
+            cases.append(_pair(_mini([("f", "Int", [("x", G.tstr(o), None)])]), _mini([("f", "Int", [("x", G.tstr(n), None)])]),
+                               [{"edit": "retype_arg", "path": ["Query", "f", "x"], "old": o, "new": n}]))
+            inp = lambda t: [{"kind": "input", "name": "I", "fields": [  # noqa: E731
+                {"name": "a", "type": t, "default": None}, {"name": "b", "type": _t("Int"), "default": None}]}]
+            cases.append(_pair(_mini([("f", "Int", [("x", "I", None)])], inp(o)), _mini([("f", "Int", [("x", "I", None)])], inp(n)),
+                               [{"edit": "retype_input_field", "path": ["I", "a"], "old": o, "new": n}]))
+            od, nd = _mini([("f", "Int", [])]), _mini([("f", "Int", [])])
+            od["directives"] = [{"name": "d", "locations": ["FIELD"], "args": [{"name": "x", "type": o, "default": None}]}]
+            nd["directives"] = [{"name": "d", "locations": ["FIELD"], "args": [{"name": "x", "type": n, "default": None}]}]
+            cases.append(_pair(od, nd, [{"edit": "retype_dir_arg", "path": ["d", "x"], "old": o, "new": n}]))
+    # the two predicates, exhaustively on all ordered pairs of wrappings (depth <= 2 quick, <= 3
+    # thorough) over nine concrete names: the five built-in scalars, an enum, a custom scalar,
+    # two input objects (+ the two abstract names used to classify the open finding)
+    depth = 2 if tier == "quick" else 3
+    allw = [w for nme in PRED_NAMES for w in _wrappings(nme, depth)]
     for o in allw:
         for n in allw:
             cases.append({"kind": "pred", "o": o, "n": n})
+    allw = _wrappings("A", 3) + _wrappings("B", 3)
+    for o in allw:
+        for n in allw:
+            if tier == "thorough" or rng.random() < 0.25:
+                cases.append({"kind": "pred", "o": o, "n": n})
     if tier == "thorough":
         _run_hash_seeds([c for c in cases if c["kind"] == "diff"])
     return cases
@@ -310,7 +363,14 @@ def run_impl(case):
         import random
         rng = random.Random(len(json.dumps(case["old"], sort_keys=True)))
         ops = []
-        for text in G.gen_operations(rng, old_s, 3 if _TIER[0] == "quick" else 5):
+        texts = G.gen_operations(rng, old_s, 3 if _TIER[0] == "quick" else 5)
+        # every retyped input position is also reached through a variable declared with the OLD type
+        for d in case["edits"]:
+            try:
+                texts = G.variable_operations(rng, old_s, d) + texts
+            except Exception:  # noqa - the route finder is best effort
+                pass
+        for text in texts:
             try:
                 doc = parse(text)
                 if validate_ast(old_s, doc).errors:
@@ -459,8 +519,10 @@ def extra_evidence(cases, obss):
     return {"distribution": {"cases": dict(kinds), "change_classes_seen": dict(classes),
                              "operations_valid_against_old": n_ops,
                              "operations_revalidated_without_breaking_change": n_ops_checked,
+                             "operations_through_variable_of_old_type": sum(
+                                 1 for o in obss for x in o.get("ops", []) if "($v:" in x["op"]),
                              "hash_seed_runs": sum(len(o.get("seed_runs", [])) for o in obss)},
-            "exhaustive_part": "safe_in/safe_out on all pairs of wrappings of depth <= 3 over two names"}
+            "exhaustive_part": "safe_in/safe_out on all ordered pairs of wrappings (depth <= 2 quick / 3 thorough) over Int, Float, String, ID, Boolean, an enum, a custom scalar, two input objects"}
 
 
 if __name__ == "__main__":
